@@ -878,15 +878,15 @@ def preimport():
 SUBS = [
     Sub("ops_exhaustive", exec_ops, enumerate=enum_ops, shards=16, weight=1.0),
     Sub("ops_random", exec_ops, strategy=lambda tier: ops_cases(tier),
-        budget={"quick": 3600, "thorough": 24000}, shards=8),
+        budget={"quick": 7200, "thorough": 24000}, shards=8),
     # get_best_actions is an unused, undocumented helper whose output layout nothing relies on: it is outside the
     # asserted domain (recorded as an observation in DESIGN.md), the sub-check exec_best is kept for reference only.
     Sub("start_nodes", exec_starts, strategy=lambda tier: start_cases(tier),
-        budget={"quick": 7200, "thorough": 48000}, shards=16, weight=2.0),
+        budget={"quick": 14400, "thorough": 48000}, shards=16, weight=2.0),
     Sub("rollouts", exec_rollouts, strategy=lambda tier: rollout_cases(tier),
-        budget={"quick": 960, "thorough": 6400}, shards=16, shrink=False, minimize=rollout_minimizer, weight=3.0),
+        budget={"quick": 1920, "thorough": 6400}, shards=16, shrink=False, minimize=rollout_minimizer, weight=3.0),
     Sub("pomo", exec_pomo, strategy=lambda tier: pomo_cases(tier),
-        budget={"quick": 192, "thorough": 1280}, shards=8, shrink=False, minimize=pomo_minimizer, weight=2.5),
+        budget={"quick": 384, "thorough": 1280}, shards=8, shrink=False, minimize=pomo_minimizer, weight=2.5),
 ]
 
 
